@@ -79,6 +79,28 @@ def r101(chk, w):
                    "-- unknown boundaries are handed to the learner as a third class" % (sorted(got) if got else None))
         chk.ob("R10.1", "label(%s)" % lb, ok, msg, site=C.site(b), sample={"label": lb, "derived": [list(map(str, g)) for g in (got or [])]})
     chk.floor("R10.1", "labels", len(table), 3)
+    # ---- R10.4 feature values count occurrences: value(feature) := value(feature) + 1 starting from 0
+    it2 = absint.Interp(w, b, models=C.effects.EXTRA_MODELS, summaries=C.summaries(w))
+    it2.trace_deref_stores = True
+    acc = set()
+    for o in it2.run(0):
+        nz = forms.Normalizer(it2, o)
+        for e in o.trace:
+            if e[0] == "store" and e[2][0][0] == "S" and e[3][0] == "expr":
+                root = e[2][0][1]
+                info = nz.ret_info.get(root)
+                if not info or not (info[0] or "").endswith("Entry::or_insert"):
+                    continue
+                ent = nz.ret_info.get(info[1][0][1]) if info[1][0][0] == "sym" else None
+                target = ent[1][0] if ent else None
+                if target is None or target[0] != "ref" or target[1][0][0] != "L":
+                    continue   # the map of feature ids lives in self; the per-example vector is a local
+                v = e[3]
+                acc.add((v[1], v[2][0] == "sym" and v[2][1].endswith("*{%s}" % root), v[3], info[1][1]))
+    chk.rule("R10.4", "the per-example feature vector counts occurrences: value += 1 starting from 0")
+    chk.ob("R10.4", "feature-count-accumulates", acc == {("Add", True, ("fl", 1.0), ("fl", 0.0))},
+           "the per-example feature value is updated as %s; expected `*entry(feature_id).or_insert(0.0) += 1.0` (two dictionary words touching the same boundary in the same role and length bucket are two feature occurrences)" % sorted(acc, key=str),
+           site=C.site(b), sample={"update": sorted(map(str, acc))})
     # the tag trainer must still see every sentence
     tt = [e for o in outs if o.kind == "return" for e in o.trace if e[0] == "call" and e[2] == "vaporetto::tag_trainer::TagTrainer::add_example"]
     rets = [o for o in outs if o.kind == "return"]
